@@ -43,6 +43,21 @@ def _paths(body):
                 for q in a + b:
                     new.append(p + [('test', st.test)] + q)
             paths = new
+        elif isinstance(st, ast.Try) and any(isinstance(n, ast.Return) for n in ast.walk(st)):
+            # a try statement that can return: either its body runs to the end, or a handler takes over
+            alts = _paths(st.body + st.orelse)
+            for h in st.handlers:
+                alts += _paths(h.body)
+            fin = _paths(st.finalbody) if st.finalbody else [[]]
+            new = []
+            for p in paths:
+                if p and isinstance(p[-1], (ast.Return, ast.Raise)):
+                    new.append(p)
+                    continue
+                for q in alts:
+                    for f_ in fin:
+                        new.append(p + q + ([] if q and isinstance(q[-1], (ast.Return, ast.Raise)) else f_))
+            paths = new
         else:
             new = []
             for p in paths:
